@@ -311,6 +311,29 @@ theorem http_received_path (lr : LReq) (h : Spec.validPath lr.rawPath = true) :
   · have hne : lr.rawPath.isEmpty = false := by rw [ht]; rfl
     simp [httpEscapedPath, he, hne]
 
+/-! ## The log level: the `dump` middleware hands on what it was given -/
+
+/-- draining a body into a buffer and restoring it from the buffer loses and adds nothing, for a body of any length -/
+theorem drainBody_restores (b : Option Bytes) : (drainBody b).2 = b ∧ (drainBody b).1 = b.getD [] := by
+  cases b <;> exact ⟨rfl, rfl⟩
+
+/-- at every log level the `dump` middleware hands the request it was given to the next handler -/
+theorem dumpMiddleware_id (level : LogLevel) (r : HttpReq) : dumpMiddleware level r = r := by
+  unfold dumpMiddleware
+  split
+  · rw [(drainBody_restores r.body).1]
+  · rfl
+
+/-- the bytes `net/http` hands over as body are the bytes of the message (`http.NoBody` for none or no bytes) -/
+theorem httpBody_getD (b : Option Bytes) :
+    (match b with | none => (none : Option Bytes) | some b => if b.isEmpty then none else some b).getD [] = b.getD [] := by
+  cases b with
+  | none => rfl
+  | some b =>
+    cases b with
+    | nil => rfl
+    | cons c t => rfl
+
 /-! ## The view functions of both request contexts against the reference semantics -/
 
 theorem plain_token {lr : LReq} (h : Spec.plainHeaders lr = true) : ∀ l ∈ lr.headers, l.1.all isTokenChar = true := by
@@ -510,7 +533,7 @@ theorem runFins_caching (F : Funcs) (fs : List Fin) (c : Ctx) :
 
 theorem runPipe_caching (R : Respond) (lr : LReq) (F : Funcs) (ep : EP) (pipe : Pipe) (d : Bool) (c : Ctx)
     (hc : c.caches = true) (hu : c.ups = {}) :
-    finalize R (Spec.headersMap lr) ep (runPipe F pipe d c) =
+    finalize R (Spec.headersMap lr) (Spec.payload lr) ep (runPipe F pipe d c) =
       Spec.delivered R lr ep (Spec.runPipe c.current F pipe d) := by
   cases hn : pipe.authn with
   | false => simp [runPipe, Spec.runPipe, hn, finalize, Spec.delivered, Spec.answerWith]
@@ -531,7 +554,7 @@ theorem runPipe_caching (R : Respond) (lr : LReq) (F : Funcs) (ep : EP) (pipe : 
           | none => simp [finalize, Spec.delivered, Spec.answerWith, hc, Spec.handOver]
 
 theorem execute_caching (cfg : Cfg) (lr : LReq) (F : Funcs) (ep : EP) (o0 : ReqObj) :
-    finalize cfg.respond (Spec.headersMap lr) ep (execute cfg F { caches := true, fresh := o0 }) =
+    finalize cfg.respond (Spec.headersMap lr) (Spec.payload lr) ep (execute cfg F { caches := true, fresh := o0 }) =
       Spec.delivered cfg.respond lr ep (Spec.serveOn cfg F o0) := by
   unfold execute Spec.serveOn
   simp only [withReq_caching, Ctx.current, Option.getD_none, Option.getD_some, if_true]
@@ -641,9 +664,17 @@ theorem answerWith_refused (hand : List Bytes → Bytes) (R : Respond) (lr : LRe
     Spec.answerWith hand R lr ep r =
       { dec := Spec.decAt ep r, status := R.code (Spec.decAt ep r),
         seen := r.view.map fun o => ({ obj := o, stable := true } : Seen),
-        upHeaders := [], upCookies := [], upSees := [] } := by
+        upHeaders := [], upCookies := [], upSees := [], upBody := [] } := by
   revert h
   unfold Spec.answerWith Spec.decAt
+  cases hd : r.dec <;> cases ep <;> cases hi : r.isDefault <;> simp
+
+/-- an allowed request reaches the upstream application with the payload the client sent -/
+theorem answerWith_upBody (hand : List Bytes → Bytes) (R : Respond) (lr : LReq) (ep : EP) (r : Spec.Run)
+    (h : (Spec.answerWith hand R lr ep r).dec = .ok) :
+    (Spec.answerWith hand R lr ep r).upBody = Spec.payload lr := by
+  revert h
+  unfold Spec.answerWith
   cases hd : r.dec <;> cases ep <;> cases hi : r.isDefault <;> simp
 
 theorem lookup_append {α : Type} (k : Bytes) (a b : List (Bytes × α)) :
